@@ -20,7 +20,8 @@ CORE = {"wal", "applied", "acked", "panic"}
 FIELDS = {
     "C01": CORE | {"tracker", "acks", "synced", "outcome", "ctrl", "status"},
     "C02": CORE | {"status", "tracker", "ctrl"},
-    "C03": CORE | {"acks", "synced", "streams", "lastapp", "cursors", "ctrl", "tracker"},
+    # "outcome": the head a node reports at NewTerm is its statement about its own log
+    "C03": CORE | {"acks", "synced", "streams", "lastapp", "cursors", "ctrl", "tracker", "outcome"},
     "C04": {"outcome", "status", "term", "wal", "lastapp", "ctrl", "synced", "applied", "acks", "panic"},
     "C05": {"term", "dbterm", "status", "outcome", "ctrl", "busy", "panic"},
     "C07": CORE | {"dbterm", "synced", "tracker"},
